@@ -1,16 +1,41 @@
+// Command verif is the entry point of the verification machinery: `verif check <Cxx> <tier>`
+// runs one property check; the other subcommands are child-process modes of the drivers.
 package main
 
 import (
-	_ "github.com/ahimsalabs/durable-streams-go/durablestream"
-	_ "github.com/ahimsalabs/durable-streams-go/durablestream/memorystorage"
-	_ "github.com/jilio/ebu"
-	_ "github.com/jilio/ebu/otel"
-	_ "github.com/jilio/ebu/state"
-	_ "github.com/jilio/ebu/stores/durablestream"
-	_ "github.com/jilio/ebu/stores/sqlite"
-	_ "go.opentelemetry.io/otel/sdk/metric"
-	_ "go.opentelemetry.io/otel/sdk/trace/tracetest"
-	_ "modernc.org/sqlite"
+	"fmt"
+	"os"
+
+	"verif/harness/busdrv"
+	"verif/harness/checks"
+	"verif/harness/core"
 )
 
-func main() {}
+func main() {
+	if len(os.Args) < 2 {
+		fmt.Fprintln(os.Stderr, "usage: verif check <property> [quick|thorough] | verif busdrive <batch> <out>")
+		os.Exit(core.ExitInfra)
+	}
+	switch os.Args[1] {
+	case "check":
+		if len(os.Args) < 3 {
+			os.Exit(core.ExitInfra)
+		}
+		tier := ""
+		if len(os.Args) > 3 {
+			tier = os.Args[3]
+		}
+		os.Exit(checks.Run(os.Args[2], tier))
+	case "busdrive":
+		if err := busdrv.RunBatchChild(os.Args[2], os.Args[3]); err != nil {
+			fmt.Fprintln(os.Stderr, err)
+			os.Exit(core.ExitInfra)
+		}
+	default:
+		if checks.Child(os.Args[1:]) {
+			return
+		}
+		fmt.Fprintln(os.Stderr, "unknown subcommand", os.Args[1])
+		os.Exit(core.ExitInfra)
+	}
+}
